@@ -4,6 +4,7 @@ import (
 	"go/token"
 	"go/types"
 	"sort"
+	"strings"
 
 	"kmcheck/internal/km"
 
@@ -28,7 +29,7 @@ func checkC14(c *km.Ctx) {
 	r.Assume = []string{"rate.Limiter.Allow consumes a token atomically", "sync.Mutex provides mutual exclusion", "go/types + go/ssa model the source faithfully"}
 
 	r.Rule("R-C14-1", "every call of checkUserPassword is dominated by checkPasswordAttemptLimit == nil; that function returns nil only on Allow() == true and answers 429 otherwise", 2)
-	r.Rule("R-C14-2", "the global limiter is constructed once (outside tests) from the rate and burst configuration fields, after clamps burst >= 10 and rate >= 1", 1)
+	r.Rule("R-C14-2", "the global limiter is constructed once (outside tests) from the rate and burst configuration fields; adjustments after parsing raise them to floors of at most 10 (burst) and 1 (rate)", 1)
 	r.Rule("R-C14-3", "TOTP spacing: lookup, test and update of lastCheckTime in one uninterrupted critical section; early return when less than a constant >= 2 s elapsed; spacing and lock-out tests precede any decryption / validation", 2)
 	r.Rule("R-C14-4", "lock-out bookkeeping is effective: no computed time is discarded; a failure increments the counter, every fifth failure sets a future lock-out time, and the record is written back under the mutex on every exit after validation", 3)
 
@@ -98,8 +99,29 @@ func checkC14(c *km.Ctx) {
 		}
 		for _, st := range storesByField(fn, KMD+".RuntimeState")["passwordAttemptGlobalLimiter"] {
 			nNew++
-			nl, ok := km.Unwrap(st.Val).(*ssa.Call)
-			if !ok || km.CalleeFull(nl.Common()) != "golang.org/x/time/rate.NewLimiter" {
+			// the value stored is a rate.NewLimiter result, made here or in a constructor helper
+			var nl *ssa.Call
+			cfn := fn
+			if cl, ok := km.Unwrap(st.Val).(*ssa.Call); ok {
+				if km.CalleeFull(cl.Common()) == "golang.org/x/time/rate.NewLimiter" {
+					nl = cl
+				} else if g := km.StaticCallee(cl.Common()); g != nil && g.Blocks != nil && c.InModule(g) {
+					only := true
+					for _, rc := range s.RetCases(g) {
+						inner, ok := km.Unwrap(rc.Results[0]).(*ssa.Call)
+						if !ok || km.CalleeFull(inner.Common()) != "golang.org/x/time/rate.NewLimiter" || (nl != nil && nl != inner) {
+							only = false
+							break
+						}
+						nl = inner
+					}
+					if !only {
+						nl = nil
+					}
+					cfn = g
+				}
+			}
+			if nl == nil {
 				r.Add("R-C14-2", km.FuncName(fn), "limiter construction", posOf(c, st), "rate.NewLimiter(configured rate, configured burst)", km.ValStr(st.Val), false)
 				continue
 			}
@@ -110,8 +132,13 @@ func checkC14(c *km.Ctx) {
 				field string
 				min   float64
 			}{{"PasswordAttemptGlobalBurstLimit", 10}, {"PasswordAttemptGlobalRateLimit", 1}} {
-				ok := clampBefore(c, fn, nl, cl.field, cl.min)
-				r.Add("R-C14-2", km.FuncName(fn), "clamp "+cl.field, posOf(c, nl), sprintf("before construction: if field < K { field = K' } with K, K' >= %v", cl.min), sprintf("%v", ok), ok)
+				ok, desc := clampBefore(c, cfn, nl, cl.field, cl.min)
+				if cfn != fn {
+					// adjustments made by the caller before it calls the constructor count as well
+					ok2, desc2 := clampBefore(c, fn, st, cl.field, cl.min)
+					ok, desc = ok && ok2, strings.TrimSpace(desc+" "+desc2)
+				}
+				r.Add("R-C14-2", km.FuncName(fn), "clamp "+cl.field, posOf(c, nl), sprintf("between parsing and construction the configured value is only ever raised to a floor <= %v (never above what the operator configured beyond that floor)", cl.min), desc, ok)
 			}
 		}
 	}
@@ -461,63 +488,56 @@ func positiveDuration(v ssa.Value) bool {
 }
 
 // clampBefore: in fn, before `at`, there is `if load(field) < K { field = K' }` with K, K' >= min.
-func clampBefore(c *km.Ctx, fn *ssa.Function, at ssa.Instruction, field string, min float64) bool {
-	found := false
+// clampBefore: every adjustment of the configured limit between the parsing of the configuration and the
+// construction of the limiter raises it to no more than the documented floor (a larger constant would let more
+// guesses through than the operator configured). Returns ok and a description.
+func clampBefore(c *km.Ctx, fn *ssa.Function, at ssa.Instruction, field string, floor float64) (bool, string) {
+	// the parse of the configuration file
+	var parse ssa.Instruction
+	for _, ci := range km.CallsIn(fn) {
+		if strings.Contains(km.CalleeFull(ci.Common()), "Unmarshal") && km.InstrDominates(ci, at) {
+			parse = ci
+		}
+	}
+	ok := true
+	var seen []string
 	km.Instrs(fn, func(in ssa.Instruction) {
-		iff, ok := in.(*ssa.If)
-		if !ok {
+		st, isSt := in.(*ssa.Store)
+		if !isSt || !km.InstrDominates(st, at) || (parse != nil && !km.InstrDominates(parse, st)) {
 			return
 		}
-		b, ok := iff.Cond.(*ssa.BinOp)
-		if !ok || b.Op != token.LSS || !mentionsField(b.X, field) {
+		fa, isFA := st.Addr.(*ssa.FieldAddr)
+		if !isFA || fieldNameOf(fa) != field {
 			return
 		}
-		k, ok := constFloat(b.Y)
-		if !ok || k < min {
+		v := km.Unwrap(st.Val)
+		if k, isC := constFloat(v); isC {
+			seen = append(seen, sprintf("= %v", k))
+			if k > floor {
+				ok = false
+			}
 			return
 		}
-		// true branch stores a constant >= min into the same field
-		for _, i2 := range iff.Block().Succs[0].Instrs {
-			if st, ok := i2.(*ssa.Store); ok {
-				if fa, ok := st.Addr.(*ssa.FieldAddr); ok && fieldNameOf(fa) == field {
-					if v, ok := constFloat(st.Val); ok && v >= min && km.InstrDominates(iff, at) {
-						found = true
+		if cl, isCall := v.(*ssa.Call); isCall {
+			if b, isB := cl.Common().Value.(*ssa.Builtin); isB && (b.Name() == "max" || b.Name() == "min") {
+				for _, a := range cl.Common().Args {
+					if k, isC := constFloat(a); isC {
+						seen = append(seen, sprintf("%s(field, %v)", b.Name(), k))
+						if b.Name() == "max" && k > floor {
+							ok = false
+						}
+					} else if !mentionsField(a, field) {
+						ok = false
+						seen = append(seen, b.Name()+"(…, "+km.ValStr(a)+")")
 					}
 				}
+				return
 			}
 		}
+		ok = false
+		seen = append(seen, "= "+km.ValStr(v))
 	})
-	// the max() form: field = max(field, K) with K >= min stored before `at`
-	km.Instrs(fn, func(in ssa.Instruction) {
-		st, ok := in.(*ssa.Store)
-		if !ok || !km.InstrDominates(st, at) {
-			return
-		}
-		fa, ok := st.Addr.(*ssa.FieldAddr)
-		if !ok || fieldNameOf(fa) != field {
-			return
-		}
-		cl, ok := km.Unwrap(st.Val).(*ssa.Call)
-		if !ok {
-			return
-		}
-		if b, ok := cl.Common().Value.(*ssa.Builtin); !ok || b.Name() != "max" {
-			return
-		}
-		hasField, hasConst := false, false
-		for _, a := range cl.Common().Args {
-			if mentionsField(a, field) {
-				hasField = true
-			}
-			if k, ok := constFloat(a); ok && k >= min {
-				hasConst = true
-			}
-		}
-		if hasField && hasConst {
-			found = true
-		}
-	})
-	return found
+	return ok, strings.Join(seen, "; ")
 }
 
 func constFloat(v ssa.Value) (float64, bool) {
